@@ -120,3 +120,57 @@ pub fn edge_nets(k: u16) -> Result<Vec<Arc<Bound>>, String> {
     }
     Ok(out)
 }
+
+/// Graphs whose symbolic context gives DIFFERENT numbers of spare variables to different network variables
+/// (SymbolicContext::with_extra_state_variables takes a per-variable map). For formulae with nesting depth
+/// <= the smallest count, the raw result must not depend on any spare variable and must equal the result on
+/// the uniform graph (both moved to the canonical context by lib-param-bn).
+pub fn nonuniform_check(b: &Bound, texts: &[String], depth_of: &dyn Fn(&str) -> usize) -> Vec<String> {
+    use biodivine_hctl_model_checker::model_checking as mc;
+    use biodivine_lib_param_bn::symbolic_async_graph::{SymbolicAsyncGraph, SymbolicContext};
+    use std::collections::HashMap;
+    let mut bad = vec![];
+    let vars: Vec<_> = b.bn.variables().collect();
+    for counts in [vec![3u16, 1, 2], vec![1, 3, 1], vec![2, 1, 4]] {
+        let map: HashMap<_, _> = vars.iter().enumerate().map(|(i, v)| (*v, counts[i % counts.len()])).collect();
+        let min = vars.iter().enumerate().map(|(i, _)| counts[i % counts.len()]).min().unwrap_or(0) as usize;
+        let ctx = match SymbolicContext::with_extra_state_variables(&b.bn, &map) {
+            Ok(c) => c,
+            Err(e) => return vec![format!("harness: non-uniform context: {e}")],
+        };
+        let unit = ctx.mk_constant(true);
+        let g = match SymbolicAsyncGraph::with_custom_context(&b.bn, ctx, unit) {
+            Ok(g) => g,
+            Err(e) => return vec![format!("harness: non-uniform graph: {e}")],
+        };
+        let gu = b.graph_with_k(min as u16);
+        let canon = g.symbolic_context().as_canonical_context();
+        for t in texts {
+            if depth_of(t) > min {
+                continue;
+            }
+            let r = crate::report::guarded(std::panic::AssertUnwindSafe(|| (mc::model_check_formula_dirty(t, &g), mc::model_check_formula_dirty(t, &gu))));
+            match r {
+                Ok((Ok(a), Ok(u))) => {
+                    let (ta, tu) = (canon.transfer_from(a.as_bdd(), g.symbolic_context()), canon.transfer_from(u.as_bdd(), gu.symbolic_context()));
+                    match (ta, tu) {
+                        (Some(x), Some(y)) if x == y => {}
+                        (None, _) => bad.push(format!("formula {t} on a graph with spare variables per network variable {counts:?}: the raw result depends on spare variables")),
+                        (Some(_), Some(_)) => bad.push(format!("formula {t} on a graph with spare variables per network variable {counts:?}: result differs from the uniform graph with k={min}")),
+                        (_, None) => bad.push(format!("formula {t}: the result on the uniform graph depends on spare variables")),
+                    }
+                }
+                Ok((a, u)) => {
+                    if a.is_ok() != u.is_ok() {
+                        bad.push(format!("formula {t} on a graph with spare variables {counts:?}: {:?}, on the uniform graph with k={min}: {:?}", a.map(|_| "ok"), u.map(|_| "ok")));
+                    }
+                }
+                Err(p) => bad.push(format!("formula {t} on a graph with spare variables {counts:?}: panic: {p}")),
+            }
+            if bad.len() >= 5 {
+                return bad;
+            }
+        }
+    }
+    bad
+}
